@@ -9,13 +9,22 @@ package ast
 // it). Counting is off unless a verification worker switches it on; the
 // worker does so before it makes any call and uses a single goroutine, so the
 // plain counter is not shared. Not part of the public API.
+//
+// VerifListWalkBudget (0 = none) turns a run-away walk into a prompt end of the
+// call: once the counter is past the budget every further walk panics, which
+// the parsers recover like any other panic of this package; the worker then
+// reads the counter.
 var (
 	VerifCountListWalks bool
 	VerifListWalks      int64
+	VerifListWalkBudget int64
 )
 
 func verifListWalk() {
 	if VerifCountListWalks {
 		VerifListWalks++
+		if VerifListWalkBudget > 0 && VerifListWalks > VerifListWalkBudget {
+			panic("verif: list-walk budget exceeded")
+		}
 	}
 }
